@@ -19,6 +19,7 @@ import z3
 from . import build, core, dsdlspec as D
 from .core import bv
 
+QUERY_TIMEOUT_MS = 60000
 ERR_INVALID_ARG = 2
 ERR_TOO_SMALL = 3
 
@@ -78,8 +79,10 @@ class TypeUnit:
                 f"int8_t h_des({self.cn}* o, const uint8_t* b, size_t* s){{ return {self.cn}_deserialize_(o, b, s); }}\n"
                 f"void h_init({self.cn}* o){{ {self.cn}_initialize_(o); }}\n")
 
+    budget_s = 300.0
+
     def engine(self, check_ub: bool) -> core.Engine:
-        return core.Engine(self.module, check_ub=check_ub)
+        return core.Engine(self.module, check_ub=check_ub, budget_s=self.budget_s)
 
 
 def _le(n: int, width: int = 8) -> typing.List[int]:
@@ -194,6 +197,7 @@ def ser_queries(tu: TypeUnit, bufsize: int, check_ub: bool, functional: bool = T
         log.unknown.append(f"unsupported: {e}")
         return log
     solver = z3.Solver()
+    solver.set("timeout", QUERY_TIMEOUT_MS)
     for kind, s2, r in res:
         log.paths += 1
         if kind == "violation":
@@ -207,11 +211,10 @@ def ser_queries(tu: TypeUnit, bufsize: int, check_ub: bool, functional: bool = T
             # C04/C05 obligations only: documented return codes, size never exceeds the supplied/advertised size
             size_out = eng.load(s2, core.IntT(64), psz)
             goal = z3.And(z3.Or(*[_rc8(r) == (-c) & 0xFF for c in (0, ERR_TOO_SMALL, D.ERR_ARRAY, D.ERR_TAG)]),
-                          z3.Implies(_rc8(r) == 0, z3.ULE(bv(size_out, 64), min(bufsize, max_bytes(tu.t)))),
-                          z3.Implies(_rc8(r) != 0, z3.And(*[bv(a, 8) == b for a, b in zip(s2.objs[pbuf.obj].data, buf0)]) if buf0 else True))
+                          z3.Implies(_rc8(r) == 0, z3.ULE(bv(size_out, 64), min(bufsize, max_bytes(tu.t)))))
             m = _check(solver, _pc(s2), goal, log)
             if m is not None:
-                log.cex.append(dict(fn="ser", kind="bad-return", what="undocumented return code, size beyond the buffer, or buffer modified on error",
+                log.cex.append(dict(fn="ser", kind="bad-return", what="undocumented return code or reported size beyond the buffer / advertised maximum",
                                     bufsize=bufsize, inputs=_inputs(m, obj0, buf0)))
             continue
         size_out = eng.load(s2, core.IntT(64), psz)
@@ -233,7 +236,8 @@ def des_setup(tu: TypeUnit, L: int, uninit_dst: bool):
     st = core.State()
     buf0 = core.sym_bytes("b", L)
     pbuf = st.new_obj(L, "buf", list(buf0), writable=False)
-    dst0 = [None] * tu.size if uninit_dst else core.sym_bytes("p", tu.size)
+    # prior-state runs: the destination holds an arbitrary prior state whose bytes are named prior<i>; the results must not depend on them
+    dst0 = core.sym_bytes("prior", tu.size) if uninit_dst else core.sym_bytes("p", tu.size)
     pdst = st.new_obj(tu.size, "dst", list(dst0))
     psz = st.new_obj(8, "size", _le(L))
     return st, buf0, dst0, pbuf, pdst, psz
@@ -262,6 +266,7 @@ def des_queries(tu: TypeUnit, L: int, check_ub: bool, functional: bool = True, u
         log.unknown.append(f"unsupported: {e}")
         return log
     solver = z3.Solver()
+    solver.set("timeout", QUERY_TIMEOUT_MS)
     for kind, s2, r in res:
         log.paths += 1
         if kind == "violation":
@@ -280,22 +285,7 @@ def des_queries(tu: TypeUnit, L: int, check_ub: bool, functional: bool = True, u
                 log.cex.append(dict(fn="des", kind="bad-return", what="undocumented return code or consumed size beyond the supplied size", L=L,
                                     inputs=_inputs(m, [], buf0, dst0)))
             if uninit_dst:
-                # prior-state independence: with an UNINITIALISED destination every read of prior state is an obligation failure
-                # (reported above as uninit-read); here: every *meaningful* field was written on success paths
-                gen = _shapes_under(solver, _pc(s2), log)
-                for m2 in gen:
-                    ch = D.Chooser(m2)
-                    try:
-                        exp, _ = D.des_top(tu.t, buf0, ch)
-                        missing = _unwritten_meaningful(tu, exp, fin)
-                        if missing:
-                            okrc = _check(solver, _pc(s2) + [ch.cond()], _rc8(r) != 0, log)
-                            if okrc is not None:
-                                log.cex.append(dict(fn="des", kind="field-not-written", what=f"meaningful field bytes never written: {missing[:4]}", L=L,
-                                                    inputs=_inputs(okrc, [], buf0, dst0)))
-                    except D.Invalid:
-                        pass
-                    gen.send(ch.cond())
+                _prior_independence(tu, solver, s2, r, consumed, fin, buf0, dst0, L, log)
             continue
         gen = _shapes_under(solver, _pc(s2), log)
         for m in gen:
@@ -307,6 +297,42 @@ def des_queries(tu: TypeUnit, L: int, check_ub: bool, functional: bool = True, u
             gen.send(cond)
     log.solver_s += eng.stats["solver_time"]
     return log
+
+
+def _prior_independence(tu: TypeUnit, solver: z3.Solver, s2: core.State, rc: typing.Any, consumed: typing.Any, fin: typing.Sequence[typing.Any],
+                        buf0: typing.Sequence[typing.Any], dst0: typing.Sequence[typing.Any], L: int, log: QueryLog) -> None:
+    """The outcome of a deserialization (error code, consumed size, every meaningful decoded field) and the path taken depend only on
+    the input bytes, never on what the destination held before.  Reads of the prior state are allowed (read-modify-write of partial
+    bytes) as long as they cannot influence any of those.  Syntactic independence first; otherwise a two-copy solver query."""
+    from z3.z3util import get_vars
+    pcs = _pc(s2)
+    prior = {str(v): v for v in dst0}
+    act = D.c_read(tu.t, "", tu.lay, fin)
+    gen = _shapes_under(solver, pcs, log)
+    for m in gen:
+        ch = D.Chooser(m)
+        try:
+            exp, _ = D.des_top(tu.t, buf0, ch)
+            outs = [bv(rc, 8), bv(consumed, 64)] + D.meaningful_leaves(exp, act)
+        except D.Invalid:
+            outs = [bv(rc, 8), bv(consumed, 64)]
+        cond = ch.cond()
+        terms = pcs + [z3.simplify(o) if not isinstance(o, int) else z3.BitVecVal(o, 8) for o in outs]
+        used = {str(v) for t in terms for v in get_vars(t)} & set(prior)
+        if not used:
+            log.unsat += 1
+        else:
+            sub = [(prior[n], z3.BitVec(n + "_b", 8)) for n in prior]
+            pc2 = [z3.substitute(c, *sub) for c in pcs]
+            outs2 = [z3.substitute(o, *sub) for o in terms[len(pcs):]]
+            same = z3.And(*(pc2 + [a == b for a, b in zip(terms[len(pcs):], outs2)]))
+            bad = _check(solver, pcs + [cond], same, log)
+            if bad is not None:
+                inp = _inputs(bad, [], buf0, dst0)
+                inp["dst_b"] = bytes(bad.eval(z3.BitVec(str(v) + "_b", 8), model_completion=True).as_long() for v in dst0).hex()
+                log.cex.append(dict(fn="des", kind="prior-state-influence", what=f"result depends on the destination's prior contents (bytes {sorted(used)[:6]})",
+                                    L=L, inputs=inp))
+        gen.send(cond)
 
 
 def _unwritten_meaningful(tu: TypeUnit, exp: typing.Any, fin: typing.Sequence[typing.Any]) -> typing.List[int]:
@@ -378,6 +404,14 @@ def replay(tu: TypeUnit, cex: dict) -> typing.Tuple[bool, str]:
     fn = cex["fn"]
     n = cex["bufsize"] if fn == "ser" else cex["L"]
     obj_hex = inp["obj"] if fn == "ser" else inp["dst"]
+    if cex["kind"] == "prior-state-influence":
+        rc1, out1, _ = native_run(tu, fn, n, inp["dst"], inp["buf"])
+        rc2, out2, _ = native_run(tu, fn, n, inp["dst_b"], inp["buf"])
+        if rc1 != 0 or rc2 != 0:
+            return True, "native run crashed"
+        buf = [z3.BitVecVal(x, 8) for x in bytes.fromhex(inp["buf"])]
+        differs = out1["rc"] != out2["rc"] or out1["size"] != out2["size"] or (out1["rc"] == 0 and _meaningful_differs2(tu, buf, out1, out2))
+        return differs, f"two prior states: rc={out1['rc']}/{out2['rc']} size={out1['size']}/{out2['size']} obj={out1['obj'].hex()[:48]} / {out2['obj'].hex()[:48]}"
     if cex["kind"] not in ("spec-mismatch", "bad-return", "field-not-written"):
         rc, out, raw = native_run(tu, fn, n, obj_hex, inp["buf"], sanitize=True)
         return rc != 0, f"sanitizer run rc={rc}: {raw[-400:]}"
@@ -391,8 +425,7 @@ def replay(tu: TypeUnit, cex: dict) -> typing.Tuple[bool, str]:
         obj = list(bytes.fromhex(inp["obj"]))
         val = D.c_read(tu.t, "", tu.lay, [z3.BitVecVal(x, 8) for x in obj])
         if cex["kind"] == "bad-return":
-            ok = out["rc"] in (0, -ERR_TOO_SMALL, -D.ERR_ARRAY, -D.ERR_TAG) and (out["rc"] != 0 or out["size"] <= n) and \
-                (out["rc"] == 0 or out["buf"] == bytes.fromhex(inp["buf"]))
+            ok = out["rc"] in (0, -ERR_TOO_SMALL, -D.ERR_ARRAY, -D.ERR_TAG) and (out["rc"] != 0 or out["size"] <= min(n, max_bytes(tu.t)))
             return (not ok), f"native: rc={out['rc']} size={out['size']}"
         cond, goal, desc = ser_goal(tu, val, m, out["rc"] & 0xFF, out["size"], list(out["buf"]), n)
     else:
@@ -423,3 +456,16 @@ def _meaningful_differs(tu: TypeUnit, buf, n, out1, out2) -> bool:
     g1 = z3.simplify(D.match_decoded(exp, a1))
     g2 = z3.simplify(D.match_decoded(exp, a2))
     return not (z3.is_true(g1) and z3.is_true(g2))
+
+
+def _meaningful_differs2(tu: TypeUnit, buf, out1, out2) -> bool:
+    ch = D.Chooser(_model([]))
+    try:
+        exp, _ = D.des_top(tu.t, buf, ch)
+    except D.Invalid:
+        return False
+    a1 = D.c_read(tu.t, "", tu.lay, [z3.BitVecVal(x, 8) for x in out1["obj"]])
+    a2 = D.c_read(tu.t, "", tu.lay, [z3.BitVecVal(x, 8) for x in out2["obj"]])
+    l1 = [z3.simplify(x) for x in D.meaningful_leaves(exp, a1)]
+    l2 = [z3.simplify(x) for x in D.meaningful_leaves(exp, a2)]
+    return any(not z3.eq(x, y) for x, y in zip(l1, l2))
